@@ -5,6 +5,7 @@ import (
 	"math"
 	"math/big"
 	"regexp"
+	"strings"
 
 	"github.com/runreveal/pql/parser"
 	"verif/harness/enum"
@@ -58,6 +59,29 @@ func c09Main(r *run.Runner) {
 			})
 		})
 	}
+	// boundary literals: values around 2^63 and 2^64 in hexadecimal and decimal, long digit runs
+	var lits []string
+	for n := 1; n <= 18; n++ {
+		for _, first := range []string{"1", "7", "8", "f", "F"} {
+			for _, rest := range []string{"0", "f", "F", "9"} {
+				for _, px := range []string{"0x", "0X"} {
+					lits = append(lits, px+first+strings.Repeat(rest, n-1))
+				}
+			}
+		}
+		for _, first := range []string{"1", "9"} {
+			for _, rest := range []string{"0", "9"} {
+				d := first + strings.Repeat(rest, n+2)
+				lits = append(lits, d, d+".5", "0."+d, d+"e1", "1e"+d[:1+n/6])
+			}
+		}
+	}
+	lits = append(lits, "9223372036854775807", "9223372036854775808", "18446744073709551615", "18446744073709551616", "0x7fffffffffffffff", "0x8000000000000000", "0xffffffffffffffff", "0x10000000000000000", "0x00000000000000000001")
+	bounds["boundary_literals"] = len(lits)
+	r.Sweep("boundary-literals", int64(len(lits)), func(w *run.Worker, item int64) {
+		c09One(w, lits[item])
+		c09One(w, "a=="+lits[item]+";")
+	})
 	r.Extra["bounds"] = bounds
 	r.Sample("a=~'x\\n' // c")
 	r.Sample("0x1f+.5e-1")
